@@ -292,6 +292,9 @@ func (u *UserHash) Remove() {
 	filename := filepath.Join(u.store.BaseDir, u.user)
 	os.Remove(filename + adminExt) //nolint:errcheck
 	os.Remove(filename + userExt)  //nolint:errcheck
+
+	// Flush the removal to disk
+	syncDir(u.store.BaseDir) //nolint:errcheck
 }
 
 // Exists checks if user exists. It also returns whether user is an admin. This returns true even if
